@@ -6,7 +6,9 @@
    over the alphabet up to length L and all splits (and all resume points) what the algorithm shows
    must satisfy Rel with the reference framing (ok stays TRUE).  All elements weigh 1 here.      *)
 EXTENDS Framing, TLC
-CONSTANTS L, Kind
+CONSTANTS L, Kind, LOBound   \* LOBound: which unterminated-buffer test LineOnlyReceiver has ("asis" = len(buffer) > MAX_LENGTH,
+                             \* "repaired" = len(buffer) >= MAX_LENGTH + len(delimiter), proposed_fixes/C16-*); the harness uses
+                             \* the variant the real code conforms to
 
 X1 == 120
 Cfgs == CASE Kind = "LO" -> {[kind |-> "LO", max |-> 2, dlm |-> d, n |-> 0] : d \in {<<13, 10>>, <<10>>}}
@@ -38,7 +40,8 @@ M0 == [pay |-> <<>>, buf |-> <<>>, paused |-> FALSE, disc |-> FALSE, raw |-> FAL
 RECURSIVE LOLines(_, _, _)
 LOLines(m, rest, c) ==       \* `for line in lines` over (buffer + data).split(delimiter); the last piece becomes the buffer
     LET i == FindD(rest, c.dlm) IN
-    IF i = 0 THEN (IF Len(rest) > c.max THEN Exceeded([m EXCEPT !.buf = rest]) ELSE [m EXCEPT !.buf = rest])
+    IF i = 0 THEN (IF (IF LOBound = "asis" THEN Len(rest) > c.max ELSE Len(rest) >= c.max + Len(c.dlm))
+                   THEN Exceeded([m EXCEPT !.buf = rest]) ELSE [m EXCEPT !.buf = rest])
     ELSE LET line == Take(rest, i - 1)  tail == Drop(rest, i - 1 + Len(c.dlm))
              \* _buffer was already set to the last piece before the loop
              lastpiece == LET RECURSIVE LP(_) LP(r) == LET j == FindD(r, c.dlm) IN IF j = 0 THEN r ELSE LP(Drop(r, j - 1 + Len(c.dlm))) IN LP(tail)
